@@ -110,4 +110,4 @@ def run(chk):
     n = (160 if tier == 'quick' else 3000)
     per = max(1, n // (core.NPROC * (1 if tier == 'quick' else 8)))
     wjobs = [(chk.seed * 1000 + i, pid, per) for i in range(n // per)]
-    return core.stream(_small, [(row, pid, tier, i) for i, row in enumerate(rows)], _wide, wjobs, tier, step=32, chunksize=1)
+    return core.stream(_small, [(row, pid, tier, i) for i, row in enumerate(rows)], _wide, wjobs, tier, step=16, chunksize=1)
